@@ -5,7 +5,7 @@
 (* sequence, complete exactly when the run succeeded, report / JSON on     *)
 (* disk exactly when their stage was reached.                              *)
 (***************************************************************************)
-EXTENDS Lifecycle, Verdict, Json, IOUtils
+EXTENDS LifecycleDef, Verdict, Json, IOUtils, TLC
 Traces == JsonDeserialize(IOEnv.TRACE_FILE)
 VARIABLES tid, v
 tvars == <<tid, v>>
